@@ -54,3 +54,72 @@ func zzC11ReportedServerNameIsWireSNI() {
 	}
 	verifReach("end")
 }
+
+//verif:harness C11 reported_parameters_are_the_servers unwind=400 paths=200000 wall=900
+//verif:stub (*utls.Conn).sendAlert zzStubSendAlert
+//verif:stub (*utls.Conn).readHandshake zzStubReadHandshake
+//verif:expect reported13 reported12 refused
+//verif:assume the transcript hash is uninterpreted; the server's messages are scripted objects (record layer and key schedule are not run)
+//verif:doc The client's half of "both sides report the same parameters": a ClientHello offering TLS 1.3/1.2, three suites, two key shares, two ALPN names and optionally one PSK meets a ServerHello with arbitrary version, suite, key-share group and PSK selection, then (TLS 1.3) EncryptedExtensions with an ALPN choice of 0..2 arbitrary bytes, resp. (TLS 1.2) a ServerHello ALPN choice: the real pickTLSVersion, checkServerHelloOrHRR, processServerHello and readServerParameters run in handshake order; whenever all of them accept, ConnectionState reports exactly the server's choices (version, cipher suite, ALPN protocol, DidResume = PSK selected) and nothing else; after a refusal no negotiated protocol is reported.
+func zzC11ReportedParametersAreTheServers() {
+	zzAlerts = nil
+	c := &Conn{config: &Config{ServerName: "a.example"}, isClient: true}
+	hello := &clientHelloMsg{vers: VersionTLS12, supportedVersions: []uint16{VersionTLS13, VersionTLS12}, cipherSuites: []uint16{TLS_AES_128_GCM_SHA256, TLS_AES_256_GCM_SHA384, TLS_ECDHE_RSA_WITH_AES_128_GCM_SHA256},
+		keyShares: []keyShare{{group: X25519}, {group: CurveP256}}, alpnProtocols: []string{"h2", "http/1.1"}, sessionId: []byte{7, 7}, compressionMethods: []uint8{0}}
+	var session *SessionState
+	if verifBool("offers-psk") {
+		hello.pskIdentities = []pskIdentity{{label: []byte{1}}}
+		session = &SessionState{cipherSuite: TLS_AES_128_GCM_SHA256, version: VersionTLS13}
+	}
+	var sp string
+	if n := verifChoice("server-alpn-len", 3); n > 0 {
+		sp = string(verifBytes("server-alpn", n))
+	}
+	sh := &serverHelloMsg{vers: verifU16("server-legacy-version"), supportedVersion: verifU16("server-supported-version"), cipherSuite: verifU16("server-suite"), sessionId: []byte{7, 7},
+		random: make([]byte, 32), selectedIdentityPresent: verifBool("psk-selected"), selectedIdentity: verifU16("psk-index")}
+	sh.serverShare.group = CurveID(verifU16("server-share-group"))
+	if err := c.pickTLSVersion(sh); err != nil {
+		verifReach("refused")
+		return
+	}
+	if c.vers == VersionTLS13 {
+		hs := &clientHandshakeStateTLS13{c: c, hello: hello, serverHello: sh, session: session, transcript: &zzUFHash{}}
+		if hs.checkServerHelloOrHRR() != nil || hs.processServerHello() != nil {
+			verifReach("refused")
+			verifAssert(c.ConnectionState().NegotiatedProtocol == "", "nothing-negotiated-after-refusal")
+			return
+		}
+		zzInbox = []any{&encryptedExtensionsMsg{alpnProtocol: sp}}
+		if hs.readServerParameters() != nil {
+			verifReach("refused")
+			verifAssert(c.ConnectionState().NegotiatedProtocol == "", "nothing-negotiated-after-refusal")
+			return
+		}
+		verifReach("reported13")
+		st := c.ConnectionState()
+		verifAssert(st.Version == VersionTLS13 && sh.supportedVersion == VersionTLS13, "reported-version-is-the-servers")
+		verifAssert(st.CipherSuite == sh.cipherSuite, "reported-suite-is-the-servers")
+		verifAssert(st.NegotiatedProtocol == sp, "reported-alpn-is-the-servers")
+		verifAssert(st.DidResume == sh.selectedIdentityPresent, "did-resume-iff-server-selected-the-psk")
+		verifAssert(!st.DidResume || session != nil, "resumption-needs-an-offered-psk")
+		return
+	}
+	// TLS 1.0-1.2
+	sh.alpnProtocol = sp
+	serverVersion := sh.vers
+	if sh.supportedVersion != 0 {
+		serverVersion = sh.supportedVersion
+	}
+	hs := &clientHandshakeState{c: c, hello: hello, serverHello: sh}
+	if _, err := hs.processServerHello(); err != nil {
+		verifReach("refused")
+		verifAssert(c.ConnectionState().NegotiatedProtocol == "", "nothing-negotiated-after-refusal")
+		return
+	}
+	verifReach("reported12")
+	st := c.ConnectionState()
+	verifAssert(st.Version == serverVersion && serverVersion == VersionTLS12, "reported-version-is-the-servers")
+	verifAssert(st.CipherSuite == sh.cipherSuite, "reported-suite-is-the-servers")
+	verifAssert(st.NegotiatedProtocol == sp, "reported-alpn-is-the-servers")
+	verifAssert(!st.DidResume, "no-resumption-without-a-session")
+}
